@@ -401,7 +401,7 @@ class Check(PropertyCheck):
         hung = []
 
         # A. prepare_command
-        texts = self.corpus_texts() + [tg.text() for _ in range(self.n(450, 6000))]
+        texts = self.corpus_texts() + [tg.text() for _ in range(self.n(450, 4000))]
         for i, t in enumerate(texts):
             d = textwrap.dedent(t)
             if i % 7 == 3:
@@ -416,7 +416,7 @@ class Check(PropertyCheck):
             self.sample({"op": "prepare_command", "text": t[:120], "result": p[:120]}, 2)
 
         # B/C. get_command_eof, get_wrapped_command on prepared and raw texts, several prefixes
-        for i in range(self.n(450, 6000)):
+        for i in range(self.n(450, 4000)):
             t = tg.text()
             c = prepare_command(t) if i % 3 else t
             prefix = "EOF" if i % 4 else self.rng.choice(["X", "", "E O", "1", "EOF1", "\u00e9", "EOF\uff11", "'", "$"])
@@ -440,7 +440,7 @@ class Check(PropertyCheck):
         mark("python_side_pure_cases")
         # D. the shell model against bash: arbitrary (possibly colliding / missing) delimiters, and the real wrapper
         jobs = []
-        for i in range(self.n(160, 3000)):
+        for i in range(self.n(160, 2000)):
             lines = [tg.line() for _ in range(self.rng.randint(0, 7))]
             delim = self.rng.choice(["EOF", "EOF", "EOF1", "X", "EOF 1", "E-F"])
             if i % 3 == 1:
@@ -453,7 +453,7 @@ class Check(PropertyCheck):
             jobs.append(("sh-model" if terminated else "sh-model-unterminated", sc, sc))
             self.stat("sh_model", "terminated" if terminated else "unterminated")
             self.count(("sh", sc))
-        for i in range(self.n(100, 2000)):
+        for i in range(self.n(100, 1200)):
             t = tg.text("cat" if i % 2 else "bash")
             jobs.append(("sh-wrapper", get_wrapped_command(prepare_command(t)), t))
             self.count(("shw", t))
@@ -473,7 +473,7 @@ class Check(PropertyCheck):
 
         mark("bash_runs")
         # H. shlex.quote / join
-        for i in range(self.n(80, 800)):
+        for i in range(self.n(80, 600)):
             argv = [self.rng.choice(PATHS + LINES[:30]) for _ in range(self.rng.randint(1, 3))]
             add(f"str_eqb (shlex_join {cq_list([cq_s(a) for a in argv])}) {cq_s(shlex.join(argv))}", ("shlex", argv))
 
@@ -482,7 +482,7 @@ class Check(PropertyCheck):
         cwd = os.getcwd()
         os.chdir(tmp)
         try:
-            for i in range(self.n(320, 4000)):
+            for i in range(self.n(320, 3000)):
                 din = sg.value("in", self.rng.randint(0, 3))
                 if din[0] not in ("list", "tuple", "dict"):
                     din = ("list", [din])
@@ -713,7 +713,7 @@ class Check(PropertyCheck):
         for hc, hp in getattr(self, "hung", [])[:3]:
             self.findings.append(Finding(f"eof-hang:{hc!r}:{hp!r}"[:300], "get_command_eof does not terminate",
                                          {"kind": "eof", "command": hc, "prefix": hp}))
-        texts = fixed + [tg.text(("cat", "bash", None)[j % 3]) for j in range(self.n(180, 6000))]
+        texts = fixed + [tg.text(("cat", "bash", None)[j % 3]) for j in range(self.n(180, 3000))]
         to_run = []
         for t in texts:
             why, p, w = self.check_text_pure(t)
@@ -735,7 +735,7 @@ class Check(PropertyCheck):
         cwd = os.getcwd()
         os.chdir(tmp)
         try:
-            for i in range(self.n(400, 6000)):
+            for i in range(self.n(400, 5000)):
                 din = sg.value("in", self.rng.randint(0, 3))
                 if din[0] not in ("list", "tuple", "dict"):
                     din = ("list", [din])
@@ -754,7 +754,7 @@ class Check(PropertyCheck):
             shutil.rmtree(tmp, ignore_errors=True)
         mark("oracle_structures")
         ne2e = 0
-        for k in range(self.n(5, 100)):
+        for k in range(self.n(5, 60)):
             seed = self.rng.randrange(10 ** 6)
             why = self.check_e2e(seed)
             ne2e += 1
